@@ -126,7 +126,7 @@ CHECKS["C16"] = dict(
     engine="tlc+nhsim", category="fault_enumeration", design_ref="5 C16",
     technique="TLA+ specification of the snapshot directory (SnapshotDir.tla: volatile vs durable layout, save / receive / compact step sequences, processOrphans) model-checked with a power loss between any two file-system steps (MCSnapshotDir); its layout predicates evaluated by TLC on directory listings of real hosts after real power losses at seeded file-system operations (SnapshotDirTrace), and on listings of the real snapshotter (component level, sdsim) after a power loss at every file-system operation of save / commit / shrink / compact / receive for replica ids of one, two and three digits",
     text="MCSnapshotDir: all interleavings of a local save, a received snapshot and compaction, each as its file-system steps, with power loss anywhere and the start-up cleanup itself interruptible: the recorded snapshot is always on disk and complete, and after the cleanup exactly the recorded snapshot remains; dropping the file sync or the directory sync is refuted (vacuity checks). Real code: hosts of a 3-host cluster (regular, concurrent, on-disk state machines; Pebble and Tan) lose power at a seeded file-system operation while saving (also two saves back to back), exporting, receiving a streamed snapshot (after being left behind a compacted log), shrinking and compacting; after NewNodeHost the directory and the log store record are listed (pre-cleanup predicate CrashLayout), after StartReplica again (CleanLayout: only the recorded snapshot remains, valid per the real validator, no flag, no temporary or orphaned directory), then the replica must reach the recorded snapshot index; panics during recovery are violations. Second engine (receiving side with external files, real chunk receiver of internal/transport on a strict in-memory file system): power loss at the end of every cksim trace, every directory that already carried its final name is compared file by file (snapshot file, flag file, external files) before / after (ChunksDurableTrace).",
-    note=NH_NOTE + " Snapshots with external files cannot be produced through NodeHosts on the in-memory file system (rsm.Files.PrepareFiles uses os.Link); they are covered on the receiving side by the second engine; import is covered by C20.")
+    note=NH_NOTE + " Snapshots with external files cannot be produced through NodeHosts on the in-memory file system (rsm.Files.PrepareFiles uses os.Link); they are covered on the receiving side by the second engine; import is covered by C20 without crash injection: the crash windows inside tools.ImportSnapshot (the snapshot directories are removed before the export is copied and recorded) are not explored by this check (DESIGN.md section 7, round 8).")
 
 CHECKS["C20"] = dict(
     engine="tlc+nhsim", category="exploration", design_ref="5 C20",
